@@ -356,7 +356,9 @@ pub fn run(tier: Tier) -> i32 {
             }),
         ));
     }
-    let res = par_map(jobs.len(), |i| check_spectrum(&jobs[i].0, &jobs[i].1));
+    // each spectrum on a newly spawned thread: the relations evaluate several statistics in a row, and
+    // what they see must not depend on which spectra the worker happened to handle before
+    let res = par_map(jobs.len(), |i| std::thread::scope(|sc| sc.spawn(|| check_spectrum(&jobs[i].0, &jobs[i].1)).join().unwrap_or_else(|_| (1, vec![("C14|lib|explorer-thread-died".to_string(), format!("{} {:?}", jobs[i].0, jobs[i].1.shape), J::Null)]))));
     let mut ev = 0u64;
     let mut nt = 0u64;
     for ((label, x), (n, v)) in jobs.iter().zip(res) {
